@@ -103,6 +103,13 @@ def run_case(env, c: dict) -> dict:
         o._population = pop
         o._greedy_select_population(new)
         r["out"] = oidx_of(o._population)
+        # the same primitive through a real thread pool (the gathered order is free, the multiset of winners is not)
+        from pyvolutionary.enums import ModeSolver
+        o2 = Probe(Cfg(population_size=len(pop), max_cycles=1))
+        o2._mode, o2._workers = ModeSolver.THREAD, 3
+        o2._population = list(pop)
+        o2._greedy_select_population(list(new))
+        r["outp"] = oidx_of(o2._population)
         r["untouched"] = same(pop, s) and same(new, sn)
     elif kind == "ext":
         pop, new = make_pop(Agent, c["pop"], 0), make_pop(Agent, c["new"], 1)
